@@ -938,6 +938,8 @@ func (ps *parseStream) witnesses() (plan []job) {
 	}
 	// every combination of the optional clauses, on the tables t / u (both quote modes; prepared mode printed only)
 	for _, c := range clauseMatrix() {
+		text := c.text
+		plan = append(plan, job{vets: []vetItem{{text, false, false}}, run: func() { selCase(ps.o, text, "clause_matrix") }})
 		plan = append(plan, ps.job(c.text, false, false, "clause_matrix", c.eval))
 		plan = append(plan, ps.job(c.text, true, true, "clause_matrix", false))
 	}
